@@ -52,6 +52,20 @@ func (p *Prog) TryObj(full string) types.Object {
 	pkgPath, member := splitName(full)
 	tp := p.typesPkg(pkgPath)
 	if tp == nil {
+		// package paths with a dot in their last element (gopkg.in/tomb.v2)
+		i := strings.LastIndex(full, "/")
+		rest := full[i+1:]
+		for j := strings.Index(rest, "."); j >= 0 && tp == nil; {
+			k := strings.Index(rest[j+1:], ".")
+			if k < 0 {
+				break
+			}
+			j += 1 + k
+			pkgPath, member = full[:i+1+j], full[i+1+j+1:]
+			tp = p.typesPkg(pkgPath)
+		}
+	}
+	if tp == nil {
 		return nil
 	}
 	ptr := false
